@@ -21,6 +21,8 @@ var MoreDirectiveAtoms = []string{
 	"@for", "@use", "@reserve", "@insert", "@continue", "@continueIf", "@component",
 	"@f", "@fo", "@u", "@us", "@r", "@res", "@reserv", "@in", "@inser", "@c", "@cont", "@continu", "@continueI",
 	"@comp", "@componen", "@s", "@slo", "@d", "@dum", "@b", "@brea", "@ea", "@eac", "@elsei", "@el",
+	// directive names in another case are plain text
+	"@elseIf", "@breakif", "@continueif", "@ElseIf", "@IF", "@End", "@breakIF", "@Each", "@elseIF",
 }
 
 // LexemeAtoms is the lexeme alphabet for lexing/parsing (C08) and positions (C19)
@@ -29,6 +31,7 @@ var LexemeAtoms = []string{
 	"@insert(", "@break", "@breakIf(", "@continue", "@continueIf(", "@component(", "@slot", "@slot(", "@dump(",
 	"{{", "}}", "{{--", "--}}", "{", "}", "(", ")", "[", "]", ",", ".", ";", ":", "?",
 	"+", "-", "*", "/", "%", "++", "--", "!", "=", "==", "!=", "<", ">", "<=", ">=",
+	"True", "FALSE", "Nil", "IN", "truE", "010", "08",
 	"true", "false", "nil", "in", "x", "loop", "1", "2.5", "\"s\"", "'t'", "\"", "'", "a b", "\n", " ", "\\", "@", "#", "~",
 }
 
